@@ -102,6 +102,15 @@ def _detect_compressor(fileobj):
         # Peek allows to read those bytes without moving the cursor in the
         # file which.
         first_bytes = fileobj.peek(max_prefix_len)
+        if len(first_bytes) < max_prefix_len and getattr(
+            fileobj, "seekable", lambda: False
+        )():
+            # peek can return less than requested when the internal buffer
+            # of the file object is almost consumed, e.g. when several
+            # objects are loaded one after the other from the same file.
+            position = fileobj.tell()
+            first_bytes = fileobj.read(max_prefix_len)
+            fileobj.seek(position)
     else:
         # Fallback to seek if the fileobject is not peekable.
         first_bytes = fileobj.read(max_prefix_len)
